@@ -3,9 +3,13 @@ from __future__ import annotations
 
 from typing import Any, Dict, List
 
+import math
+
 from .. import compare
 from ..core import BOUNDARY, Ctx, Taps
 from ..gen import dataset as D
+from ..gen import objects as O
+from ..oracles import geometry as G
 from ..scenario import Frame, Run, Scenario, gen_scenario
 
 LEVEL_TEXT = (
@@ -25,7 +29,7 @@ RULE = (
     "difference; distinct = (task, policy, range kind, removed?, tp?, fp?, fn?, tn?, n_frames class)"
 )
 ASSUMPTIONS = ["objects and ego have yaw-only rotations", "no decision within 1e-6 of a boundary in the ego-frame description (otherwise skipped)"]
-DECIDING = ["C07.interpolated_pairs_compared", "C07.pairs_compared", "C07.frames_compared", "C07.pairs_with_removed_object", "C07.pairs_with_tp", "C07.tracking_pairs", "C07.scene_compared", "C07.no_ego_pose_runs_compared"]
+DECIDING = ["C07.interpolated_pairs_compared", "C07.pairs_compared", "C07.frames_compared", "C07.pairs_with_removed_object", "C07.pairs_with_tp", "C07.tracking_pairs", "C07.scene_compared", "C07.no_ego_pose_runs_compared", "C07.follower_pairs_compared"]
 JOBS = {"quick": 4, "thorough": 14}
 TOL = 1e-6
 
@@ -33,10 +37,13 @@ TOL = 1e-6
 def run(ctx: Ctx) -> None:
     n = 160 if ctx.quick else 20000
     interpolated_pairs(ctx, 50 if ctx.quick else 8000)
+    follower_pairs(ctx, 24 if ctx.quick else 3000)
     for idx in ctx.indices("pairs", n):
         r = ctx.rng("pairs", idx)
         task = ["detection", "tracking", "detection", "fp_validation"][idx % 4]
-        scn = gen_scenario(r, task=task, big=not ctx.quick and r.random() < 0.3)
+        # (tracking: three quarters of the cases with a fast, turning ego, so that "in range" differs clearly between the ego poses
+        # of consecutive frames)
+        scn = gen_scenario(r, task=task, big=not ctx.quick and r.random() < 0.3, fast_ego=(task == "tracking" and (idx // 4) % 4 != 0), n_frames=(r.randint(3, 5) if (task == "tracking" and (idx // 4) % 4 != 0) else None))
         ctx.begin_case("pairs", idx, **scn.info)
         margin = compare.scenario_margin(scn)
         if margin < BOUNDARY:
@@ -109,6 +116,61 @@ def run(ctx: Ctx) -> None:
                 ctx.count("C07.tracking_pairs")
             buckets = tuple(bool(any(x[p] for x in dig_e)) for p in ("tp", "fp", "fn", "tn"))
             ctx.case((task, scn.info["policy"], "xy" if "max_x_position" in scn.cfg else "ring", removed, buckets, min(len(scn.frames), 3)), nontrivial=removed or tp, sample=dict(scn.info, margin=margin, frame0=dict(tp=dig_e[0]["tp"][:3], fp=dig_e[0]["fp"][:3], maps=dig_e[0]["metrics"]["maps"][:1])) if idx < 3 else None)
+
+
+def follower_pairs(ctx: Ctx, n: int) -> None:
+    """Tracking with a fast ego and vehicles that keep their ego-relative place near the edge of the evaluated range (a car
+    following at the rear limit, one leading at the front limit): in range in every frame as seen from that frame's
+    ego pose, out of range as seen from the neighbouring frame's. Track ids change between frames."""
+    for idx in ctx.indices("followers", n):
+        r = ctx.rng("followers", idx)
+        R = r.choice([30.0, 40.0, 60.0])
+        nF = r.randint(2, 4)
+        speed, dt = r.uniform(20.0, 40.0), r.choice([200_000, 500_000])
+        ego_yaw0, yawrate = O.rand_yaw(r), r.uniform(-0.3, 0.3)
+        t0 = 1_600_000_000_000_000 + r.randint(0, 10**9)
+        ego0 = (r.uniform(-1e4, 1e4), r.uniform(-1e4, 1e4), 0.0)
+        ring = r.random() < 0.5
+        rel = [(-(R - r.uniform(1.0, 4.0)), r.uniform(-1.0, 1.0)), ((R - r.uniform(1.0, 4.0)), r.uniform(-1.0, 1.0)), (r.uniform(-5, 5), r.uniform(3, 8))]
+        frames = []
+        ep, ey = list(ego0), ego_yaw0
+        for k in range(nF):
+            fr = Frame(t=t0 + k * dt, ego_pos=(ep[0], ep[1], ep[2]), ego_yaw=ey)
+            for j, (x, y) in enumerate(rel):
+                box = (x, y, 0.0, 0.0, 1.9, 4.5, 1.6)
+                fr.gts.append(dict(key=f"veh{j}", category="car", canon="car", box=box, npts=50, vis="full", attrs=[]))
+                uid = f"trk{j}_{k if (j + k) % 2 == 0 else 0}"  # ids of some tracks change from frame to frame
+                fr.ests.append(dict(key=f"e{k}_{j}", name="car", box=(x + r.gauss(0, 0.2), y + r.gauss(0, 0.2), 0.0, r.gauss(0, 0.05), 1.9, 4.5, 1.6), score=round(0.9 - 0.1 * j - 0.01 * k, 4), uuid=uid))
+            frames.append(fr)
+            sec = dt * 1e-6
+            ep = [ep[0] + speed * sec * math.cos(ey), ep[1] + speed * sec * math.sin(ey), 0.0]
+            ey = G.wrap_pi(ey + yawrate * sec)
+        cfg = {"evaluation_task": "tracking", "target_labels": ["car"], "label_prefix": "autoware", "merge_similar_labels": False, "matching_label_policy": "DEFAULT", "min_point_numbers": [0], "center_distance_thresholds": [[1.0]], "plane_distance_thresholds": [[2.0]], "iou_2d_thresholds": [[0.3]], "iou_3d_thresholds": [[0.3]]}
+        crit = {"target_labels": ["car"]}
+        if ring:
+            cfg.update(max_distance=R, min_distance=0.0)
+            crit.update(max_distance_list=[R], min_distance_list=[0.0])
+        else:
+            cfg.update(max_x_position=R, max_y_position=R)
+            crit.update(max_x_position_list=[R], max_y_position_list=[R])
+        scn = Scenario(task="tracking", frames=frames, cfg=cfg, critical=[crit] * nF, passfail=[{"target_labels": ["car"], "matching_threshold_list": [2.0]}] * nF, info=dict(task="tracking", n_frames=nF, R=R, ring=ring, speed=speed))
+        ctx.begin_case("followers", idx, **scn.info)
+        if compare.scenario_margin(scn) < BOUNDARY:
+            ctx.count("C07.skipped_boundary")
+            continue
+        with ctx.case_guard("followers"):
+            with D.DatasetDir(scn.scene_spec()) as ds:
+                run_e, run_m = Run(scn, "base_link", ds), Run(scn, "map", ds)
+                dig_e = [compare.frame_digest(run_e.add(k)) for k in range(nF)]
+                dig_m = [compare.frame_digest(run_m.add(k)) for k in range(nF)]
+            ctx.count("C07.follower_pairs_compared")
+            for k, (a, b) in enumerate(zip(dig_e, dig_m)):
+                for part in ("results", "critical_gt", "tp", "fp", "fn", "tn", "metrics"):
+                    d = compare.diff(a[part], b[part], TOL)
+                    if d is not None:
+                        ctx.violation(f"C07/ego_and_map_runs_differ:followers:{part}", dict(scn.info, frame=k, first_difference=d[:400]), tap="comparator")
+                        break
+            ctx.case(("followers", ring, nF), nontrivial=True)
 
 
 def interpolated_pairs(ctx: Ctx, n: int) -> None:
